@@ -441,8 +441,14 @@ impl BitVector for Bv {
 
 impl Hash for Bv {
     fn hash<H: Hasher>(&self, state: &mut H) {
-        self.len().hash(state);
-        for i in 0..Self::int_len::<u64>(self) {
+        // Eq ignores the length (it compares values), so Hash must too: hash the significant
+        // words only.
+        let mut n = Self::int_len::<u64>(self);
+        while n > 0 && self.get_int::<u64>(n - 1).unwrap() == 0 {
+            n -= 1;
+        }
+        n.hash(state);
+        for i in 0..n {
             self.get_int::<u64>(i).unwrap().hash(state);
         }
     }
